@@ -80,7 +80,7 @@ func (t *tr) calleeSig(c *ast.CallExpr) *fsig {
 }
 
 func supported(k kind) bool {
-	return k == kByte || k == kNat || k == kInt || k == kBool || k == kBytes || k == kRec || k == kRecList || k == kSet
+	return k == kByte || k == kNat || k == kInt || k == kBool || k == kBytes || k == kRec || k == kRecList || k == kSet || k == kAbs
 }
 
 // collectPaths finds the field paths p.f.g (of a supported type) rooted at one of the given outer variables.
@@ -148,6 +148,18 @@ func (t *tr) opaqueBinders(f *fctx, stmts []ast.Stmt, ops []opq, n ast.Node) {
 			continue
 		}
 		var parts []string
+		for _, s := range stmts {
+			ast.Inspect(s, func(nd ast.Node) bool {
+				if c, ok := nd.(*ast.CallExpr); ok && len(parts) == 0 && t.src(c.Fun) == o.callee {
+					if sel, ok := c.Fun.(*ast.SelectorExpr); ok {
+						if kr, _ := t.kindOf(sel.X); kr == kAbs {
+							parts = append(parts, t.leanType(t.typeOf(sel.X)))
+						}
+					}
+				}
+				return true
+			})
+		}
 		np := sig.Params().Len()
 		if sig.Variadic() {
 			np--
@@ -179,7 +191,7 @@ func (t *tr) opaqueBinders(f *fctx, stmts []ast.Stmt, ops []opq, n ast.Node) {
 			}
 		}
 		res := t.leanResult(sig.Results())
-		if strings.Contains(res, " ") && len(parts) > 0 {
+		if strings.Contains(res, " ") {
 			res = "(" + res + ")"
 		}
 		parts = append(parts, res)
@@ -208,8 +220,53 @@ func (t *tr) blockBinders(f *fctx, stmts []ast.Stmt, fn string, n ast.Node) {
 			continue
 		}
 		f.blockops[o.callee] = o
+		bty := "Bytes → Bytes"
+		for _, s := range stmts {
+			ast.Inspect(s, func(nd ast.Node) bool {
+				if c, ok := nd.(*ast.CallExpr); ok && t.src(c.Fun) == o.callee {
+					if sel, ok := c.Fun.(*ast.SelectorExpr); ok {
+						if kr, _ := t.kindOf(sel.X); kr == kBytes {
+							bty = "Bytes → Bytes → Bytes" // keyed by the representation of the cipher object (its key)
+						}
+					}
+				}
+				return true
+			})
+		}
 		if !f.hasBinder(leanName(o.name)) {
-			f.binders = append(f.binders, binder{leanName(o.name), "Bytes → Bytes"})
+			f.binders = append(f.binders, binder{leanName(o.name), bty})
+		}
+	}
+	for _, o := range t.u.mutate[fn] {
+		var sig *types.Signature
+		var recvTy types.Type
+		for _, s := range stmts {
+			ast.Inspect(s, func(nd ast.Node) bool {
+				if c, ok := nd.(*ast.CallExpr); ok && sig == nil && t.src(c.Fun) == o.callee {
+					sig, _ = t.typeOf(c.Fun).(*types.Signature)
+					if sel, ok := c.Fun.(*ast.SelectorExpr); ok {
+						recvTy = t.typeOf(sel.X)
+					}
+				}
+				return true
+			})
+		}
+		if sig == nil || recvTy == nil {
+			t.fail(n, "-mutate callee %s is not called here", o.callee)
+			continue
+		}
+		if kr, _ := classify(recvTy); kr != kAbs || sig.Results().Len() != 0 {
+			t.fail(n, "-mutate callee %s: the receiver must be an abstract object (-abs) and the method must return nothing", o.callee)
+			continue
+		}
+		f.mutops[o.callee] = o
+		parts := []string{t.leanType(recvTy)}
+		for i := 0; i < sig.Params().Len(); i++ {
+			parts = append(parts, t.leanType(sig.Params().At(i).Type()))
+		}
+		parts = append(parts, t.leanType(recvTy))
+		if !f.hasBinder(leanName(o.name)) {
+			f.binders = append(f.binders, binder{leanName(o.name), strings.Join(parts, " → ")})
 		}
 	}
 	for _, c := range t.u.abstract[fn] {
@@ -336,6 +393,9 @@ func (t *tr) fn(fd *ast.FuncDecl) string {
 	t.f = f
 	f.stateful = u.stateful[fd.Name.Name]
 	f.goSig, _ = u.info.Defs[fd.Name].Type().(*types.Signature)
+	for _, an := range u.absNames() {
+		f.binders = append(f.binders, binder{an, "Type"})
+	}
 	// external stateful objects: an abstract state type per object, the callee as a function on it
 	var externVars []*types.Var
 	if f.stateful {
@@ -473,6 +533,7 @@ func (t *tr) fn(fd *ast.FuncDecl) string {
 		f.env[v] = v.Name()
 		plain = false
 	}
+	t.scanClosures(fd.Body.List)
 	t.findViews(fd.Body.List)
 	// results
 	res := fd.Type.Results
@@ -578,8 +639,14 @@ func (t *tr) fn(fd *ast.FuncDecl) string {
 		}
 	}
 	if !f.stateful && (res == nil || len(res.List) == 0 || errOnly) {
-		// a procedure: its value is the final content of the slice parameters it writes
-		written := t.assignedObjs(fd.Body.List)
+		// a procedure: its value is the final content of the slice parameters whose content it writes
+		// (re-slicing a parameter, `in = in[n:]`, only changes the local slice header)
+		written := t.storedObjs(fd.Body.List)
+		for o := range written {
+			if r, ok := f.viewRoot[o]; ok {
+				written[r] = true
+			}
+		}
 		var outs []types.Object
 		var tys []string
 		for _, n := range sliceParams {
@@ -688,6 +755,9 @@ func (t *tr) region(fd *ast.FuncDecl, r regionSpec) string {
 	}
 	f := newFctx(leanName(r.name), u.opaque[r.name])
 	t.f = f
+	for _, an := range u.absNames() {
+		f.binders = append(f.binders, binder{an, "Type"})
+	}
 	if hasWhile(stmts) {
 		f.binders = append(f.binders, binder{"fuel", "Nat"})
 	}
@@ -769,6 +839,7 @@ func (t *tr) region(fd *ast.FuncDecl, r regionSpec) string {
 		}
 		return "(" + strings.Join(vs, ", ") + ")"
 	}
+	t.scanClosures(stmts)
 	t.findViews(stmts)
 	f.resTy = strings.Join(tys, " × ")
 	body := t.block(stmts, 1, f.outs)
